@@ -9,6 +9,7 @@ CONSTANTS
   Discipline = "full"
   DotAll = TRUE
   FindFirst = FALSE
+  AffixFrom = 0
   Emit = "lts"
   BlockLen = 0
   MemoKeyJoined = FALSE
